@@ -15,8 +15,11 @@ import (
 	"fmt"
 	"go/ast"
 	"go/token"
+	"runtime"
 	"strconv"
 	"strings"
+	"sync"
+	"time"
 
 	"github.com/gotd/td/crypto"
 	"github.com/gotd/td/mtproto"
@@ -152,9 +155,27 @@ type faultyStorage struct {
 	loadFail bool
 	saveFail bool
 	garbage  []byte // when set, LoadSession returns these bytes
+	jitter   bool   // concurrent runs: yield / sleep around storage calls to shake the interleaving
+	perCall  func() (loadFail, saveFail bool)
+}
+
+func (s *faultyStorage) shake() {
+	if !s.jitter {
+		return
+	}
+	switch time.Now().UnixNano() % 4 { // scheduling noise only; never part of a compared value
+	case 0:
+		runtime.Gosched()
+	case 1:
+		time.Sleep(20 * time.Microsecond)
+	case 2:
+		time.Sleep(200 * time.Microsecond)
+	}
 }
 
 func (s *faultyStorage) LoadSession(ctx context.Context) ([]byte, error) {
+	s.shake()
+	defer s.shake()
 	if s.loadFail {
 		return nil, errLoadInjected
 	}
@@ -165,6 +186,8 @@ func (s *faultyStorage) LoadSession(ctx context.Context) ([]byte, error) {
 }
 
 func (s *faultyStorage) StoreSession(ctx context.Context, data []byte) error {
+	s.shake()
+	defer s.shake()
 	if s.saveFail {
 		return errSaveInjected
 	}
@@ -338,7 +361,7 @@ func run(c *hc.Ctx) error {
 		"(5% with a foreign key id, 5% sparse), permanent keys incl. zero-value/non-zero-id; non-trivial = history with ≥ 2 notifications of which at least one is " +
 		"regular from a non-primary DC or CDN and at least one is accepted. restore: stored sessions mutated (key byte, key id byte, key/id length, DC 0, " +
 		"bad JSON, wrong version, empty); all non-trivial. distinct = distinct input line"
-	c.PartialNote("c.session / c.sessions are read between notifications; concurrent notifications from several connections are serialised by the harness (connMux/sessionsMux interleavings are not modelled)")
+	c.PartialNote("concurrent notifications: the interleaving is the Go scheduler's (shaken by yields/sleeps in the storage), not enumerated; the model must admit the observed final state (reachability over all interleavings of the atomic steps), intermediate states are not observed")
 	c.PartialNote("session.Loader's JSON encoding is exercised (storage content is read back through it) but not modelled")
 
 	type pend struct {
@@ -628,6 +651,124 @@ func run(c *hc.Ctx) error {
 			if c.Compare(p.line, p.impl, outs[len(runs)+i]) {
 				c.Res.TracesValidated++
 			}
+		}
+	}
+	return runConcurrent(c)
+}
+
+// runConcurrent lets 2..3 notifications race through the real handler from separate goroutines and asks
+// the model whether the observed final state and results are those of SOME interleaving of the
+// notifications' atomic steps (TdModel.C30.reach); the monitor checks the stored session is one whole
+// notification.
+func runConcurrent(c *hc.Ctx) error {
+	r := c.Rng
+	n := c.N(600, 8000)
+	var lines []string
+	for i := 0; i < n; i++ {
+		primary := hc.Pick(r, 0, 2, 2, 2, 4)
+		st := &faultyStorage{jitter: true}
+		var init *session.Data
+		if r.Chance(25) {
+			k := genKey(r)
+			init = &session.Data{DC: primary, Addr: "149.154.167.50:443", AuthKey: append([]byte{}, k.Value[:]...),
+				AuthKeyID: append([]byte{}, k.ID[:]...), Salt: int64(r.U64())}
+			if err := (&session.Loader{Storage: &st.mem}).Save(context.Background(), init); err != nil {
+				return err
+			}
+		}
+		k := hc.Pick(r, 2, 2, 2, 3)
+		var hist []notif
+		for j := 0; j < k; j++ {
+			x := notif{dc: hc.Pick(r, primary, primary, primary, 1+r.Intn(5), 0), key: genKey(r), salt: int64(r.U64()), fault: 'n'}
+			if r.Chance(15) {
+				x.cdn, x.dc = true, 203
+			}
+			if r.Chance(30) {
+				x.perm = genKey(r)
+			}
+			hist = append(hist, x)
+		}
+		v := telegram.VerifC30NewClient(primary, false, st)
+		results := make([]string, k)
+		var wg sync.WaitGroup
+		start := make(chan struct{})
+		for j := range hist {
+			wg.Add(1)
+			go func(j int) {
+				defer wg.Done()
+				defer func() {
+					if p := recover(); p != nil {
+						results[j] = fmt.Sprintf("panic:%v", p)
+					}
+				}()
+				x := hist[j]
+				<-start
+				var err error
+				cfg := tg.Config{ThisDC: x.dc}
+				ms := mtproto.Session{Key: x.key, Salt: x.salt, PermKey: x.perm}
+				if x.cdn {
+					err = v.VerifC30OnCDNSession(cfg, ms)
+				} else {
+					err = v.VerifC30OnSession(cfg, ms)
+				}
+				if err == nil {
+					results[j] = "ok"
+				} else {
+					results[j] = "err:" + err.Error()
+				}
+			}(j)
+		}
+		close(start)
+		wg.Wait()
+		st.jitter = false
+		state := showClient(v, st)
+		now := st.stored()
+		sess := v.VerifC30Session()
+		v.VerifC30Close()
+		is := "-"
+		if init != nil {
+			is = wireStored(init)
+		}
+		var ws []string
+		for _, x := range hist {
+			ws = append(ws, x.wire())
+		}
+		storedSalt := "-"
+		if now != nil {
+			storedSalt = strconv.FormatInt(now.Salt, 10)
+		}
+		line := fmt.Sprintf("conc 1 %d %s %s | %s %s %d %s", primary, is, strings.Join(ws, " "), strings.Join(results, ","), state, sess.Salt, storedSalt)
+		c.Eval(line, true)
+		// monitor: the stored session is one whole notification (or the initial content)
+		storedBy, sessBy := -1, -1
+		for j, x := range hist {
+			e := x.eff()
+			if now != nil && !x.cdn && now.DC == x.dc && bytes.Equal(now.AuthKey, e.Value[:]) && bytes.Equal(now.AuthKeyID, e.ID[:]) && now.Salt == x.salt {
+				storedBy = j
+			}
+			if !x.cdn && sess.DC == x.dc && sess.AuthKey == e && sess.Salt == x.salt {
+				sessBy = j
+			}
+		}
+		switch {
+		case now == nil || (init != nil && showStored(init) == showStored(now)):
+			c.Count("conc.stored=initial-or-none")
+		case storedBy < 0:
+			c.Fail("stored-not-one-confirmed-session", line, "after concurrent notifications the storage holds "+showStored(now)+", which is not the DC+key+salt of any single notification")
+		case storedBy == sessBy:
+			c.Count("conc.stored=session")
+		default:
+			c.Count("conc.stored!=session (lagging save)")
+		}
+		lines = append(lines, line)
+	}
+	outs, err := c.Drv.Batch(lines)
+	if err != nil {
+		return err
+	}
+	for i, o := range outs {
+		if c.Compare(lines[i], "reachable", o) {
+			c.Res.TracesValidated++
 		}
 	}
 	return nil
